@@ -23,6 +23,8 @@ REQUIRED_THEOREMS = [
     "C04.between_calls_noop",
     "C04.abort_deliveries_are_noops",
     "C04.between_keeps",
+    "C04.sequential_error_surfaces",
+    "C04.sequential_clean_after_call",
 ]
 TRUSTED_EXTRA = [
     "M1 granularity: completion callbacks are atomic and happen at hook points of the caller (configure, compute_batch_size, sleep, consumer "
